@@ -61,6 +61,19 @@ type ReplayFile struct {
 	Shrunk     bool             `json:"shrunk"`
 	ShrinkNote string           `json:"shrink_note,omitempty"`
 	Tier       string           `json:"tier,omitempty"`
+	// History: the violation depends on what earlier runs of the same worker process left behind in the code under
+	// test (package-level state: a pool, a cache, a shared sentinel). The replay executes the search-mode runs
+	// First..Last of (BatchSeed, Worker) in one fresh process, each from its derived seed; the violation must occur in
+	// run Last, whose event-log hash is LogHash. Tape then holds the un-minimised tape of run Last, for information.
+	History *History `json:"history,omitempty"`
+}
+
+type History struct {
+	BatchSeed uint64 `json:"batch_seed"`
+	Worker    int    `json:"worker"`
+	First     int    `json:"first_run"`
+	Last      int    `json:"last_run"`
+	Note      string `json:"note,omitempty"`
 }
 
 type WorkerOut struct {
@@ -86,7 +99,12 @@ type WorkerOut struct {
 	Stub       []string         `json:"stub"`
 	Rule       string           `json:"rule"`
 	Status     string           `json:"status"` // ok | violation | replay-ok | replay-mismatch
-	Detail     string           `json:"detail,omitempty"`
+	// RunIndex / RawLogHash / RawTape: position in this worker's run sequence, event-log hash and tape of the run that
+	// failed, before minimisation (for history replays)
+	RunIndex   int    `json:"run_index,omitempty"`
+	RawLogHash string `json:"raw_log_hash,omitempty"`
+	RawTape    []int  `json:"raw_tape,omitempty"`
+	Detail     string `json:"detail,omitempty"`
 }
 
 func envInt(name string, def int) int {
@@ -340,7 +358,16 @@ func mainReplay(t *testing.T, h Harness, out string) {
 	}
 	// as in search mode a run that hits a recorded known finding keeps going (the violation to reproduce may come later)
 	globalKnown = loadKnown(h.Prop)
-	r := ExecRun(t, h, NewReplayTape(rf.Seed, rf.Tape))
+	var r *Run
+	if hs := rf.History; hs != nil {
+		// the runs that came before it in the worker's sequence first, verdicts ignored
+		for i := hs.First; i < hs.Last; i++ {
+			ExecRun(t, h, NewSearchTape(Mix(hs.BatchSeed, hs.Worker, i)))
+		}
+		r = ExecRun(t, h, NewSearchTape(Mix(hs.BatchSeed, hs.Worker, hs.Last)))
+	} else {
+		r = ExecRun(t, h, NewReplayTape(rf.Seed, rf.Tape))
+	}
 	wo := WorkerOut{Property: h.Prop, Harness: h.Name, Runs: 1, Events: r.Events, Counters: r.Counters}
 	var got *Violation
 	if rf.Violation != nil {
@@ -513,6 +540,9 @@ func mainSearch(t *testing.T, h Harness, out string) {
 			wo.Violation = rf.Violation
 			wo.ReplayPath = path
 			wo.Status = "violation"
+			wo.RunIndex = i
+			wo.RawLogHash = r.LogHash()
+			wo.RawTape = append([]int(nil), r.Tape.Vals...)
 			break
 		}
 	}
